@@ -63,12 +63,13 @@ def s_flat(eoe, **kw):
     p.add_argument("--n", type=int, nargs=2)
     p.add_argument("--yn", action=ActionYesNo)
     p.add_argument("--u", type=Union[int, List[str]])
+    p.add_argument("--ch", nargs="+", choices=["a", "b"])
     p.add_argument("pos", type=int, nargs="?")
     return p
 
 
 FLAT = [("cfg", "cfg"), ("i", "int"), ("f", "float"), ("s", "str"), ("b", "bool"), ("li", "List[int]"), ("di", "Dict[str,int]"), ("oi", "Optional[PositiveInt]"),
-        ("e", "Enum"), ("p", "Optional[Path_fr]"), ("any", "Any"), ("t", "Tuple[int,str]"), ("n", "int*2"), ("yn", "YesNo"), ("u", "Union[int,List[str]]")]
+        ("e", "Enum"), ("p", "Optional[Path_fr]"), ("any", "Any"), ("t", "Tuple[int,str]"), ("n", "int*2"), ("yn", "YesNo"), ("u", "Union[int,List[str]]"), ("ch", "choices+")]
 
 
 def s_nested(eoe, **kw):
